@@ -49,7 +49,9 @@ CONSTANTS
     MaxDrop,    \* bound on dropped transmissions (both directions together)
     MaxDup,     \* bound on duplicated transmissions
     MaxResend,  \* bound on resend rounds per endpoint (model bound)
-    ChanCap     \* bound on channel length (model bound)
+    ChanCap,    \* bound on channel length (model bound)
+    MaxInject,  \* bound on packets forged by the relay (C07 configurations)
+    InjSeqs     \* sequence values the relay may put into forged ACK/NACKs
 
 S == N + 1
 
@@ -78,14 +80,15 @@ VARIABLES
     nAcc,     \* [EP -> Nat]      number of application messages added
     nPing,    \* [EP -> Nat]
     dlv,      \* [EP -> Seq(Nat)] messages returned by Recv
-    drops, dups, nRs,
+    drops, dups, nRs, nInj,
+    nInj,     \* packets forged by the relay so far
     \* history (unwrapped) counters used by the strengthening invariant
     uTop,     \* [EP -> Nat]  number of packets ever added
     uBase,    \* [EP -> Nat]  unwrapped base
     uR        \* [EP -> Nat]  number of packets accepted in sequence
 
 vars == <<base, top, buf, rseq, lastNack, ch, spc, ping, rsNext, rsTop, rsRet,
-          rcur, szR, inbox, nAcc, nPing, dlv, drops, dups, nRs,
+          rcur, szR, inbox, nAcc, nPing, dlv, drops, dups, nRs, nInj,
           uTop, uBase, uR>>
 
 Size(e) == QSize(base[e], top[e], S)
@@ -119,6 +122,7 @@ Init ==
     /\ dlv  = [e \in EP |-> <<>>]
     /\ drops = 0 /\ dups = 0
     /\ nRs = [e \in EP |-> 0]
+    /\ nInj = 0
     /\ uTop = [e \in EP |-> 0]
     /\ uBase = [e \in EP |-> 0]
     /\ uR = [e \in EP |-> 0]
@@ -137,7 +141,7 @@ SPing(e) ==
     /\ spc' = [spc EXCEPT ![e] = "idle"]
     /\ nPing' = [nPing EXCEPT ![e] = @ + 1]
     /\ UNCHANGED <<base, top, buf, rseq, lastNack, ch, rsNext, rsTop, rsRet,
-                   rcur, szR, inbox, nAcc, dlv, drops, dups, nRs,
+                   rcur, szR, inbox, nAcc, dlv, drops, dups, nRs, nInj,
                    uTop, uBase, uR>>
 
 \* queue.addPacket: the packet gets Seq = top and is stored; top advances.
@@ -150,7 +154,7 @@ SAdd(e) ==
     /\ uTop' = [uTop EXCEPT ![e] = @ + 1]
     /\ spc' = [spc EXCEPT ![e] = "tx1"]
     /\ UNCHANGED <<base, rseq, lastNack, ch, ping, rsNext, rsTop, rsRet, rcur,
-                   szR, inbox, nPing, dlv, drops, dups, nRs, uBase, uR>>
+                   szR, inbox, nPing, dlv, drops, dups, nRs, nInj, uBase, uR>>
 
 \* first transmission of the packet just added (slot top-1)
 STxFirst(e, k) ==
@@ -161,13 +165,13 @@ STxFirst(e, k) ==
     /\ spc' = [spc EXCEPT ![e] = "check"]
     /\ ping' = [ping EXCEPT ![e] = FALSE]
     /\ UNCHANGED <<base, top, buf, rseq, lastNack, rsNext, rsTop, rsRet, rcur,
-                   szR, inbox, nAcc, nPing, dlv, nRs, uTop, uBase, uR>>
+                   szR, inbox, nAcc, nPing, dlv, nRs, nInj, uTop, uBase, uR>>
 
 \* inner loop: size() >= n, wait
 SetFull(e) ==
     /\ spc' = [spc EXCEPT ![e] = "full"]
     /\ UNCHANGED <<base, top, buf, rseq, lastNack, ch, ping, rsNext, rsTop,
-                   rsRet, rcur, szR, inbox, nAcc, nPing, dlv, drops, dups, nRs,
+                   rsRet, rcur, szR, inbox, nAcc, nPing, dlv, drops, dups, nRs, nInj,
                    uTop, uBase, uR>>
 
 SFull(e) == spc[e] = "check" /\ Size(e) >= N /\ SetFull(e)
@@ -177,7 +181,7 @@ SWake(e) ==
     /\ spc[e] = "full"
     /\ spc' = [spc EXCEPT ![e] = "check"]
     /\ UNCHANGED <<base, top, buf, rseq, lastNack, ch, ping, rsNext, rsTop,
-                   rsRet, rcur, szR, inbox, nAcc, nPing, dlv, drops, dups, nRs,
+                   rsRet, rcur, szR, inbox, nAcc, nPing, dlv, drops, dups, nRs, nInj,
                    uTop, uBase, uR>>
 
 \* queue.resend: (base, top) read; b is the value of base that was read, which
@@ -199,7 +203,7 @@ SResendBegin(e, b) ==
     /\ spc' = [spc EXCEPT ![e] = "rs"]
     /\ nRs' = [nRs EXCEPT ![e] = @ + 1]
     /\ UNCHANGED <<base, top, buf, rseq, lastNack, ch, ping, rcur, szR, inbox,
-                   nAcc, nPing, dlv, drops, dups, uTop, uBase, uR>>
+                   nAcc, nPing, dlv, drops, dups, nInj, uTop, uBase, uR>>
 
 SResendStep(e, k) ==
     /\ spc[e] = "rs" /\ rsNext[e] # rsTop[e]
@@ -208,20 +212,20 @@ SResendStep(e, k) ==
     /\ Fault(k)
     /\ rsNext' = [rsNext EXCEPT ![e] = (@ + 1) % S]
     /\ UNCHANGED <<base, top, buf, rseq, lastNack, spc, ping, rsTop, rsRet,
-                   rcur, szR, inbox, nAcc, nPing, dlv, nRs, uTop, uBase, uR>>
+                   rcur, szR, inbox, nAcc, nPing, dlv, nRs, nInj, uTop, uBase, uR>>
 
 SResendEnd(e) ==
     /\ spc[e] = "rs" /\ rsNext[e] = rsTop[e]
     /\ spc' = [spc EXCEPT ![e] = "sync"]
     /\ UNCHANGED <<base, top, buf, rseq, lastNack, ch, ping, rsNext, rsTop,
-                   rsRet, rcur, szR, inbox, nAcc, nPing, dlv, drops, dups, nRs,
+                   rsRet, rcur, szR, inbox, nAcc, nPing, dlv, drops, dups, nRs, nInj,
                    uTop, uBase, uR>>
 
 SSyncDone(e) ==
     /\ spc[e] = "sync"
     /\ spc' = [spc EXCEPT ![e] = IF rsRet[e] = "idle" THEN "idle" ELSE "check"]
     /\ UNCHANGED <<base, top, buf, rseq, lastNack, ch, ping, rsNext, rsTop,
-                   rsRet, rcur, szR, inbox, nAcc, nPing, dlv, drops, dups, nRs,
+                   rsRet, rcur, szR, inbox, nAcc, nPing, dlv, drops, dups, nRs, nInj,
                    uTop, uBase, uR>>
 
 ---------------------------------------------------------------------------
@@ -237,7 +241,7 @@ Rx(e) ==
     /\ rcur' = [rcur EXCEPT ![e] = Head(ch[e])]
     /\ ch' = [ch EXCEPT ![e] = Tail(@)]
     /\ UNCHANGED <<base, top, buf, rseq, lastNack, spc, ping, rsNext, rsTop,
-                   rsRet, szR, inbox, nAcc, nPing, dlv, drops, dups, nRs,
+                   rsRet, szR, inbox, nAcc, nPing, dlv, drops, dups, nRs, nInj,
                    uTop, uBase, uR>>
 
 \* DATA with the expected sequence number: ACK it, bump recvSeq, hand the
@@ -252,7 +256,7 @@ RDataOk(e, k) ==
                     IF rcur[e].m = 0 THEN @ ELSE Append(@, rcur[e].m)]
     /\ rcur' = [rcur EXCEPT ![e] = None]
     /\ UNCHANGED <<base, top, buf, lastNack, spc, ping, rsNext, rsTop, rsRet,
-                   szR, nAcc, nPing, dlv, nRs, uTop, uBase>>
+                   szR, nAcc, nPing, dlv, nRs, nInj, uTop, uBase>>
 
 \* DATA with another sequence number: NACK the expected one ...
 RNackSend(e, k) ==
@@ -262,7 +266,7 @@ RNackSend(e, k) ==
     /\ lastNack' = [lastNack EXCEPT ![e] = rseq[e]]
     /\ rcur' = [rcur EXCEPT ![e] = None]
     /\ UNCHANGED <<base, top, buf, rseq, spc, ping, rsNext, rsTop, rsRet, szR,
-                   inbox, nAcc, nPing, dlv, nRs, uTop, uBase, uR>>
+                   inbox, nAcc, nPing, dlv, nRs, nInj, uTop, uBase, uR>>
 
 \* ... unless a NACK for the same sequence number was sent recently.
 RNackSupp(e) ==
@@ -270,7 +274,7 @@ RNackSupp(e) ==
     /\ lastNack[e] = rseq[e]
     /\ rcur' = [rcur EXCEPT ![e] = None]
     /\ UNCHANGED <<base, top, buf, rseq, lastNack, ch, spc, ping, rsNext, rsTop,
-                   rsRet, szR, inbox, nAcc, nPing, dlv, drops, dups, nRs,
+                   rsRet, szR, inbox, nAcc, nPing, dlv, drops, dups, nRs, nInj,
                    uTop, uBase, uR>>
 
 \* queue.processACK when the queue was found empty by the unlocked pre-check.
@@ -283,7 +287,7 @@ RAckEmpty(e) ==
     /\ rcur' = [rcur EXCEPT ![e] = None]
     /\ szR' = [szR EXCEPT ![e] = Size(e)]
     /\ UNCHANGED <<base, top, buf, rseq, lastNack, ch, spc, ping, rsNext, rsTop,
-                   rsRet, inbox, nAcc, nPing, dlv, drops, dups, nRs,
+                   rsRet, inbox, nAcc, nPing, dlv, drops, dups, nRs, nInj,
                    uTop, uBase, uR>>
 
 \* queue.processACK past the pre-check (the queue is not empty now).
@@ -296,7 +300,7 @@ RAck(e) ==
        /\ szR' = [szR EXCEPT ![e] = QSize(r.base, top[e], S)]
     /\ rcur' = [rcur EXCEPT ![e] = None]
     /\ UNCHANGED <<top, buf, rseq, lastNack, ch, spc, ping, rsNext, rsTop, rsRet,
-                   inbox, nAcc, nPing, dlv, drops, dups, nRs, uTop, uR>>
+                   inbox, nAcc, nPing, dlv, drops, dups, nRs, nInj, uTop, uR>>
 
 \* queue.processNACK
 RNack(e) ==
@@ -307,7 +311,7 @@ RNack(e) ==
        /\ szR' = [szR EXCEPT ![e] = QSize(r.base, top[e], S)]
     /\ rcur' = [rcur EXCEPT ![e] = None]
     /\ UNCHANGED <<top, buf, rseq, lastNack, ch, spc, ping, rsNext, rsTop, rsRet,
-                   inbox, nAcc, nPing, dlv, drops, dups, nRs, uTop, uR>>
+                   inbox, nAcc, nPing, dlv, drops, dups, nRs, nInj, uTop, uR>>
 
 ---------------------------------------------------------------------------
 (* Application *)
@@ -317,7 +321,18 @@ AppRecv(e) ==
     /\ dlv' = [dlv EXCEPT ![e] = Append(@, Head(inbox[e]))]
     /\ inbox' = [inbox EXCEPT ![e] = Tail(@)]
     /\ UNCHANGED <<base, top, buf, rseq, lastNack, ch, spc, ping, rsNext, rsTop,
-                   rsRet, rcur, szR, nAcc, nPing, drops, dups, nRs,
+                   rsRet, rcur, szR, nAcc, nPing, drops, dups, nRs, nInj,
+                   uTop, uBase, uR>>
+
+---------------------------------------------------------------------------
+(* The untrusted relay (C07): it may put a forged ACK or NACK carrying any   *)
+(* sequence byte at the tail of either channel.                            *)
+
+AdvInject(e, p) ==
+    /\ ch' = [ch EXCEPT ![e] = Append(@, p)]
+    /\ nInj' = nInj + 1
+    /\ UNCHANGED <<base, top, buf, rseq, lastNack, spc, ping, rsNext, rsTop,
+                   rsRet, rcur, szR, inbox, nAcc, nPing, dlv, drops, dups, nRs,
                    uTop, uBase, uR>>
 
 ---------------------------------------------------------------------------
@@ -345,6 +360,8 @@ Next ==
        \/ RAck(e)
        \/ RNack(e)
        \/ AppRecv(e)
+       \/ /\ nInj < MaxInject /\ Room(e)
+          /\ \E q \in InjSeqs : AdvInject(e, Ack(q)) \/ AdvInject(e, Nack(q))
 
 Spec == Init /\ [][Next]_vars
 
